@@ -395,6 +395,7 @@ func main() {
 	defer run.Close()
 	for s := 0; s < *n; s++ {
 		r := hx.Rng(*seed, s)
+		var sched *drummer.VerifScheduler
 		g := dbx.NewGen(r, map[string]string{"general": "general", "launch": "c09", "repair": "c05"}[*profile])
 		if *profile != "general" {
 			g.Malformed = false
@@ -490,7 +491,10 @@ func main() {
 				if cp || ctx == nil {
 					hx.Die("scheduler context lookup failed")
 				}
-				res := drummer.VerifSchedule(nh, ctx, draws, mode)
+				if sched == nil || r.Intn(12) == 0 {
+					sched = drummer.VerifNewScheduler() // a new leader; otherwise the scheduler object lives on across rounds
+				}
+				res := sched.Schedule(nh, ctx, draws, mode)
 				op = dbx.Op{Op: "sched", Mode: mode, Draws: draws, ShardsO: res.ShardsOrder, HostsO: res.HostsOrder}
 				for _, cr := range res.Repairs {
 					op.Repairs = append(op.Repairs, dbx.RepairOrder{S: cr.ShardID, F: cr.Failed, O: cr.OK, W: cr.ToStart})
@@ -498,7 +502,7 @@ func main() {
 				run.OpLine(op)
 				done = append(done, op)
 				exhausted := strings.Contains(res.Panic, "random draws exhausted")
-				j := &schedx.Judge{Run: run, Seq: s, Idx: i, Ops: append([]dbx.Op{}, done...)}
+				j := &schedx.Judge{Run: run, Seq: s, Idx: i, Ops: append([]dbx.Op{}, done...), ConsistentHistory: script != nil}
 				c := schedx.ParseContext(ctx)
 				if mode == "launch" {
 					j.Launch(c, &res, exhausted)
